@@ -8,10 +8,11 @@ RULE = ("correspondence: Verify / PopVerify of the model vs the real suites on c
         "other keys/messages/suites/tags, sk'*H(m) for sk'=sk+-1, -S, S+T (cofactor torsion T), 2S, single/multi bit flips at every byte "
         "and in the three flag bits, the infinity encoding, random valid G2 encodings; predicates: the real Verify returns True iff the "
         "candidate is byte-for-byte Sign(sk, m) of that suite")
-HYPOTHESES = ["PairingFacts' (C01_ProtoHB2): HB1 = additivity of the reduced pairing in each argument on r-torsion points (needs divisors / Weil reciprocity; not in Mathlib); ND = non-degeneracy against the generator (r.Q = 0 -> e(Q, g1) = 1 -> Q = 0); HB1' = the model's Miller loop + final exponentiation compute e. HB2 (group orders) and HT6 (hash_to_G2 lands in the subgroup, never raises) are PROVED and no longer assumed"]
-NOT_YET_PROVED = ["the three fields of PairingFacts' themselves; cross-suite/cross-tag rejection is stated with the visible hash-inequality hypothesis (random-oracle assumption)"]
+HYPOTHESES = ["ModelBilinearCode (C01_ProtoModel / Lemmas/ModelPairing): the pairing function the code itself computes is additive in each argument on canonical on-curve subgroup triples — pairing(add(Q,Q'),P) == pairing(Q,P)*pairing(Q',P) and pairing(Q,add(P,P')) == pairing(Q,P)*pairing(Q,P') (HB1; needs divisor theory, not in Mathlib). It is the ONLY remaining hypothesis: group orders (HB2), hash_to_G2 total and in the subgroup (HT6), non-degeneracy (kernel-evaluated e(G2,G1) != 1 + cyclic torsion) and 'the Miller loop computes e' (representative independence via optimized = reference pairing) are all theorems"]
+NOT_YET_PROVED = ['bilinearity of the model pairing; cross-suite/cross-tag rejection carries the visible hash-inequality hypothesis (random-oracle assumption)']
 ASSUMPTIONS = ["cross-suite / cross-tag rejection relies on hash_to_curve(m, DST) != hash_to_curve(m', DST') (random-oracle assumption)"]
 nontrivial = nontrivial_default
+EXTRA_MODULES = {"Props.C01_ProtoHB2": "PyEcc.C02.", "Props.C01_ProtoND": "PyEcc.C02.", "Props.C01_ProtoModel": "PyEcc.C02."}
 CHUNK = 3
 
 
